@@ -4,6 +4,6 @@ CONSTANTS
   Assets <- AssetsGen
   AssetOf <- AssetOfGen
   Adm <- AdmGen
-  MaxLen = 4
+  MaxLen = 5
   Gen = TRUE
 INVARIANTS Emit
